@@ -3,6 +3,7 @@ package c19
 import (
 	"context"
 	"sync"
+	"time"
 
 	"github.com/openconfig/gribigo/server"
 	"google.golang.org/protobuf/proto"
@@ -128,6 +129,25 @@ func (p *proxy) Flush(ctx context.Context, req *spb.FlushRequest) (*spb.FlushRes
 		req = nreq
 	}
 	return p.inner.Flush(ctx, req)
+}
+
+// slowProxy is a conformant server that is slow: responses are delivered late and/or
+// requests are handled late.
+func slowProxy(in *server.Server, resp, req time.Duration) spb.GRIBIServer {
+	p := &proxy{inner: in}
+	if resp > 0 {
+		p.onResp = func(st *sessState, out *spb.ModifyResponse) *spb.ModifyResponse {
+			time.Sleep(resp)
+			return out
+		}
+	}
+	if req > 0 {
+		p.onReq = func(st *sessState, in *spb.ModifyRequest) (*spb.ModifyRequest, *spb.ModifyResponse) {
+			time.Sleep(req)
+			return in, nil
+		}
+	}
+	return p
 }
 
 type fault struct {
